@@ -12,6 +12,7 @@ import (
 	"strconv"
 	"strings"
 	"testing"
+	"time"
 
 	"pgregory.net/rapid"
 )
@@ -278,6 +279,108 @@ func pgCorpusCases() []ExecCase {
 	return out
 }
 
+// pairTableCases: every comparison of two short sequences of mixed-type items,
+// as a predicate check, as a filter and under "is unknown", in both modes. In
+// strict mode every pair must be examined (an error anywhere makes the
+// predicate unknown), in lax mode the first decisive pair in sequence order
+// wins: the order of true, false and erroneous pairs matters.
+func pairTableCases(big bool) []ExecCase {
+	vals := []string{`1`, `2`, `"x"`, `null`}
+	maxLen := 2
+	if big {
+		vals = append(vals, `true`, `[1]`, `"1"`, `1.0`)
+	}
+	var seqs []string
+	var rec func(prefix []string, n int)
+	rec = func(prefix []string, n int) {
+		seqs = append(seqs, "["+strings.Join(prefix, ",")+"]")
+		if n == 0 {
+			return
+		}
+		for _, v := range vals {
+			rec(append(append([]string{}, prefix...), v), n-1)
+		}
+	}
+	rec(nil, maxLen)
+	if big {
+		// a few of length 3 where the decisive pair sits at each position
+		seqs = append(seqs, `[1,"x",2]`, `["x",1,2]`, `[2,1,"x"]`, `[null,1,"x"]`, `[2,2,1]`, `[1,2,"x"]`)
+	}
+	var out []ExecCase
+	for _, a := range seqs {
+		for _, b := range seqs {
+			doc := `{"a":` + a + `,"b":` + b + `}`
+			for _, op := range cmpOps {
+				for _, mode := range []string{"", "strict "} {
+					cmp := "$.a[*] " + op + " $.b[*]"
+					out = append(out,
+						ExecCase{Path: mode + cmp, Doc: doc},
+						ExecCase{Path: mode + "(" + cmp + ") is unknown", Doc: doc},
+						ExecCase{Path: mode + "$ ? (@.a[*] " + op + " @.b[*]).a", Doc: doc})
+				}
+			}
+		}
+	}
+	return out
+}
+
+// genDatetimeCmpCase: comparisons between datetime items of different types
+// whose instants lie within a few hours of each other, in a context zone: the
+// casts between date, timestamp and timestamptz happen in the zone of the
+// context, so the answer differs from a comparison of the raw instants exactly
+// when the two values are closer than the zone offset.
+func genDatetimeCmpCase(rt *rapid.T) (ExecCase, *Path) {
+	day := rapid.SampledFrom([]string{"2024-03-10", "2015-08-01", "2024-11-03", "2000-01-01", "2024-02-29"}).Draw(rt, "day")
+	mk := func(label string) (string, string) {
+		h := rapid.IntRange(-14, 38).Draw(rt, label+"h")
+		d := day
+		if h < 0 || h > 23 {
+			// previous or next day, computed on the calendar
+			tm, _ := time.Parse("2006-01-02", day)
+			tm = tm.Add(time.Duration(h) * time.Hour)
+			d, h = tm.Format("2006-01-02"), tm.Hour()
+		}
+		min := rapid.SampledFrom([]string{"00:00", "00:00", "30:00", "59:59"}).Draw(rt, label+"m")
+		switch rapid.IntRange(0, 4).Draw(rt, label+"k") {
+		case 0:
+			return d, rapid.SampledFrom([]string{"date", "datetime"}).Draw(rt, label+"dm")
+		case 1:
+			return fmt.Sprintf("%sT%02d:%s", d, h, min), rapid.SampledFrom([]string{"timestamp", "datetime", "date"}).Draw(rt, label+"tm")
+		case 2:
+			return fmt.Sprintf("%sT%02d:%s+00:00", d, h, min), rapid.SampledFrom([]string{"timestamp_tz", "datetime", "timestamp", "date"}).Draw(rt, label+"zm")
+		case 3:
+			off := rapid.SampledFrom([]string{"+05:30", "-05:00", "-04:00", "+10:00", "-12:00", "+14:00"}).Draw(rt, label+"off")
+			return fmt.Sprintf("%sT%02d:%s%s", d, h, min, off), rapid.SampledFrom([]string{"timestamp_tz", "datetime"}).Draw(rt, label+"om")
+		default:
+			return fmt.Sprintf("%sT%02d:%s", d, h, min), "timestamp"
+		}
+	}
+	as, am := mk("a")
+	bs, bm := mk("b")
+	op := rapid.SampledFrom(cmpOps).Draw(rt, "op")
+	strict := rapid.IntRange(0, 3).Draw(rt, "strict") == 0
+	mode := ""
+	if strict {
+		mode = "strict "
+	}
+	var text string
+	switch rapid.IntRange(0, 2).Draw(rt, "form") {
+	case 0:
+		text = fmt.Sprintf("%s$[*] ? (@.%s() %s %q.%s())", mode, am, op, bs, bm)
+	case 1:
+		text = fmt.Sprintf("%s$[0].%s() %s $[1].%s()", mode, am, op, bm)
+	default:
+		text = fmt.Sprintf("%s$[*] ? (%q.%s() %s @.%s())", mode, bs, bm, op, am)
+	}
+	zs := []string{"", "UTC", "+05:30", "-12:00", "America/New_York", "-05:00", "+10:00", "Australia/Sydney"}
+	c := ExecCase{Path: text, Doc: fmt.Sprintf("[%q,%q]", as, bs), Opts: Opts{TZ: rapid.IntRange(0, 9).Draw(rt, "tz") < 8, Zone: rapid.SampledFrom(zs).Draw(rt, "zone")}}
+	pr, err := prepare(c)
+	if err != nil {
+		rt.Fatalf("harness: %q does not parse: %v", text, err)
+	}
+	return c, pr.tree
+}
+
 // stressDocs: a document whose keys the "context stress" generator uses, so
 // that nested filters, subscripts with last / @ / $ and exists() guards all
 // reach data; the two rows differ in every field that a leaked binding could
@@ -384,6 +487,27 @@ func TestC01(t *testing.T) {
 		if len(cs) == 0 {
 			ev.Note("path/exec/pg_test.go not found: the PostgreSQL-derived inputs were not replayed")
 		}
+	})
+	t.Run("pair_table", func(t *testing.T) {
+		b := ev.enum(t)
+		cs := pairTableCases(thorough())
+		for i, c := range cs {
+			if !mine(i) {
+				continue
+			}
+			v, f := checkModelFacts(c)
+			record("pair_table", c, f, nil)
+			if !b.Check("c01.model", c, v) {
+				return
+			}
+		}
+		ev.Exhaustive("all_comparisons_of_two_short_mixed_sequences_by_form_by_mode", int64(len(cs)))
+	})
+	ev.rapidProp(t, "datetime_compare", func(rt *rapid.T) {
+		c, p := genDatetimeCmpCase(rt)
+		v, f := checkModelFacts(c)
+		record("datetime_compare", c, f, nodeKinds(p.Root))
+		ev.Check(rt, "c01.model", c, v)
 	})
 	ev.rapidProp(t, "context_stress", func(rt *rapid.T) {
 		c, p := genStressCase(rt)
